@@ -98,4 +98,13 @@ def judgeS (T : Nat) (os : List EntObsS) (timeTravel outboxed injected : Nat) (n
       | some sig => if tieOrderCause T os then some tieOrderSig else some sig
       | none => if nondet then some "par/runs-differ-across-repetitions" else none
 
+/-! ## "for any window size up to the minimum link latency": a larger window must be rejected
+
+A partitioned run that was *not* rejected although the effective window (integer nanoseconds, as the
+coordinator advances its barrier) exceeds the effective minimum of some declared link (integer
+nanoseconds, as the barrier validation converts it) ran outside the property's hypothesis: events due
+between that link's minimum and the window end can be injected behind the destination's clock. -/
+def judgeAccepted (wEff : Nat) (effLats : List Nat) : Option String :=
+  if effLats.any (fun l => decide (l < wEff)) then some "par/invalid-configuration-accepted" else none
+
 end HappyModel.C05
